@@ -81,6 +81,7 @@ class EngineBase:
         self.registry = registry
         self.mode = Mode(contract.mode)
         self.mode.neg_inf_sentinel = bool(getattr(contract, 'neg_inf_sentinel', False))
+        self.mode.nan_sentinel = bool(getattr(contract, 'nan_sentinel', False))
         self.obligations = []
         self.consts = dict(consts or {})
         self.loop_nodes = None
@@ -93,6 +94,8 @@ class EngineBase:
         self._symcache = {}
         self.ghost_hits = set()
         self._suppress_side = 0
+        self.loop_stack = []
+        self.name_stores = bool(getattr(contract, 'name_stores', False))
         self.abstract_fp = bool(getattr(contract, 'abstract_fp', False)) or bool(os.environ.get('VT_ABSFP'))
 
     # ------------------------------------------------------------------ helpers
@@ -104,6 +107,17 @@ class EngineBase:
         full = self.unique(f"{self.fn.module}.{self.fn.qualname}:{name}")
         self.obligations.append(
             Obligation(full, kind, st.pc, goal, lineno, f"{self.fn.module}.{self.fn.qualname}", text))
+
+    def resolve_callee(self, name):
+        if name is None:
+            return None
+        name = self.contract.callee_alias.get(name, name)
+        if name in self.registry:
+            return name
+        q = f"{self.fn.module}.{name}"
+        if q in self.registry:
+            return q
+        return name
 
     def unique(self, full):
         k = self._names.get(full, 0)
@@ -265,6 +279,12 @@ class EngineBase:
 
         if len(full) == cell.ndim:
             value = self.to_kind(value, cell.kind)
+            if self.name_stores and cell.kind == "float" and is_z3(value) and value.num_args() > 0 \
+                    and value.decl().kind() not in (z3.Z3_OP_SELECT,):
+                # SSA-style naming: keep array cells atomic so later facts do not carry ever-growing terms
+                c_ = z3.Const(fresh_name("v"), value.sort())
+                st.assume(c_ == value)
+                value = c_
         cell.term = upd(cell.term, full)
 
     def as_vec(self, st, v):
